@@ -15,7 +15,11 @@ META = dict(
           "snapshot had not recorded [use_after_restore]. The model's value semantics is justified by a census of the source (add_function copies, "
           "sorts and publishes a new vector; State copied under the lock) [env_code_shape] and by correspondence: after every step of generated "
           "histories the real engine's observable environment (call result of every name x arity, globals, types, locals, evaluated files, error/"
-          "success of the step) equals the model's."),
+          "success of the step) equals the model's — asked both by freshly parsed strings and by functions parsed once before the history began (plain and "
+          "method-call form), whose call sites keep their remembered table slots across set_state. Those slots cannot matter: `Model/FlatMap.lean` models "
+          "QuickFlatMap's find / hinted find / insert_or_assign, the condition of the hinted find is read off the source on every run (extract/e_flatmap.py), and "
+          "with it the hinted lookup equals the plain lookup for every table with distinct keys, every key and every hint [hinted_lookup_is_lookup, "
+          "findHint_is_find, insertOrAssign_distinct; without the key test: findHint_without_key_test_counterexample]."),
     note=("Trusted: Lean kernel, extract/e_env.py, harness/state.cpp. Values of mutable globals are shared with snapshots by design (Boxed_Value handles); "
           "the harness replaces globals with set_global (new handle) rather than mutating them in place, as the property speaks of what is visible."),
     design_ref="DESIGN.md §6 C15")
@@ -48,6 +52,8 @@ def gen_history(rng, maxlen):
 
 def run(ctx):
     C.run_extractor(ctx, "env", e_env, "Env.lean")
+    import e_flatmap
+    C.run_extractor(ctx, "flatmap", e_flatmap, "FlatMap.lean")
     status, text, rc = C.lean_obligations(ctx, ["C15"])
     have_driver = (rc == 0 and os.path.exists(C.driver_path())) or C.ensure_driver(ctx, ["Env.lean"])
     with ctx.timer("harness_build"):
